@@ -363,4 +363,28 @@ theorem refused_insert_changes_nothing (s s' : St) (p c : Nat) (ref : Option Nat
     (h : insertChild s p c ref = (s', .err e)) : s' = s :=
   C13.insertChild_failure_unchanged s s' p c ref e h
 
+-- identities over whole histories (added 2026-09-23)
+/-- IDENTITIES ARE NEVER RE-USED OR INVENTED, over any history: the allocation counter never goes back, and an
+    identity below the counter occurs afterwards at most as often as it did before (0 stays 0: the slot of a refused
+    factory call, or any number never handed out, never turns up in a tree; 1 stays at most 1) -/
+theorem identities_never_reused (s : St) (ops : List Op) (h : Inv s) (a : Nat) (ha : a < s.next) :
+    s.next ≤ (run s ops).next ∧ cntL a (run s ops).roots ≤ cntL a s.roots := by
+  induction ops generalizing s with
+  | nil => exact ⟨Nat.le_refl _, Nat.le_refl _⟩
+  | cons op r ih =>
+    have hg := step_grow s op h
+    have hi := inv_step s op h
+    obtain ⟨h1, h2⟩ := ih (step s op).1 hi (by have := hg.1; omega)
+    have h3 := hg.2 a
+    rw [if_neg (by omega)] at h3
+    exact ⟨by have := hg.1; show s.next ≤ (run (step s op).1 r).next; omega,
+           by show cntL a (run (step s op).1 r).roots ≤ _; omega⟩
+
+/-- a node created during a history is different from every node that existed before it -/
+theorem new_nodes_are_new (s : St) (ops : List Op) (h : Inv s) (a : Nat)
+    (hnew : cntL a s.roots = 0) (hthere : 0 < cntL a (run s ops).roots) : s.next ≤ a := by
+  by_cases ha : a < s.next
+  · have := (identities_never_reused s ops h a ha).2; omega
+  · omega
+
 end XmlRs.C12
